@@ -162,8 +162,9 @@ def run(pid, spec, res, driver_ok, thorough, seed):
                 continue
             if len(res.violations) < 3:
                 msg = v["msg"]
-                small = shrink(pid, s, lambda sc, m=msg: any(x["msg"].split(":")[0] == m.split(":")[0] and not (x["finding"] and x["finding"] in known)
-                                                           for x in (mon(sc) + special.extra_monitor(pid, sc)))) if "ops" in s and s["ops"] and s["ops"][0]["op"] == "init" else s
+                # minimal prefix: the history up to the op at which the monitor fires (a shorter
+                # history obtained by deleting reports would leave the provider contract)
+                small = dict(s, ops=s["ops"][:v["op_index"] + 1]) if "ops" in s and s["ops"] and s["ops"][0]["op"] == "init" else s
                 path = write_replay(pid, seed, "violation%d" % len(res.violations), small, msg)
                 res.violations.append({"msg": msg, "replay": path})
             break
